@@ -3,6 +3,7 @@ package main
 import (
 	"encoding/json"
 	"fmt"
+	"github.com/resgateio/resgate/server"
 	"sort"
 	"strings"
 
@@ -41,6 +42,7 @@ type profile struct {
 	rids         []string
 	eventKinds   []string
 	reqKinds     []string
+	limitRunPct  int // percentage of histories that start by driving one subscription to the count limit
 }
 
 func stdUniverse() *universe {
@@ -135,6 +137,7 @@ func profiles() map[string]profile {
 	p.eventKinds = []string{"custom", "delete", "reaccess"}
 	p.wEvent = 6
 	p.denyPct, p.getFailPct = 15, 15
+	p.limitRunPct = 4
 	ps["counts"] = p
 
 	p = baseProfile("order") // events racing the loading of newly referenced resources
@@ -749,6 +752,37 @@ func (g *gen) step() {
 	g.silent()
 }
 
+// limitRun drives the direct subscription count of one resource on one connection to the limit
+// (SubscriptionCountLimit) and a little beyond, then takes counts off again: requests refused at
+// the limit must leave nothing behind (C08).
+func (g *gen) limitRun() {
+	cs := g.liveClients()
+	if len(cs) == 0 {
+		return
+	}
+	c := cs[0]
+	rid := pick(g.r, []string{"m.a", "c.a"})
+	g.kinds["limit-run"]++
+	g.w.request(c, "subscribe."+rid, "")
+	g.drain()
+	k := server.SubscriptionCountLimit - 2 + g.r.intn(5) // 254 .. 258 subscribes in total
+	for i := 1; i < k && g.w.stall == ""; i++ {
+		g.w.request(c, "subscribe."+rid, "")
+	}
+	g.drain()
+	switch g.r.intn(3) {
+	case 0:
+		g.w.request(c, "get."+rid, "")
+	case 1:
+		g.w.request(c, "new."+rid, `{"n":1}`)
+	}
+	g.drain()
+	for _, n := range []int{server.SubscriptionCountLimit + 1, server.SubscriptionCountLimit - g.r.intn(3), 1 + g.r.intn(2), 1} {
+		g.w.request(c, "unsubscribe."+rid, fmt.Sprintf(`{"count":%d}`, n))
+	}
+	g.drain()
+}
+
 // drain answers every outstanding request (grants, current state) until none is left.
 func (g *gen) drain() {
 	for i := 0; i < 400; i++ {
@@ -795,6 +829,9 @@ func runHistory(p profile, seed uint64, index int, keepSteps bool, wantSnap bool
 	g.pqVariant = r.next() % 3
 	w.steps = append(w.steps, stepRec{Stim: fmt.Sprintf("# config referenceThrottle=%d resetThrottle=%d flat=%s", cfg.referenceThrottle, cfg.resetThrottle, b2s(cfg.flat))})
 	g.connect()
+	if p.limitRunPct > 0 && int(r.next()%100) < p.limitRunPct {
+		g.limitRun()
+	}
 	for i := 0; i < p.steps && w.stall == ""; i++ {
 		g.step()
 	}
